@@ -101,7 +101,8 @@ func (s *Store) Push(b bpv7.Bundle) error {
 		compPart := bi.Parts[0]
 		for _, part := range biStore.Parts {
 			if part.FragmentOffset == compPart.FragmentOffset &&
-				part.TotalDataLength == compPart.TotalDataLength {
+				part.TotalDataLength == compPart.TotalDataLength &&
+				part.PayloadLength == compPart.PayloadLength {
 				knownFragment = true
 				break
 			}
